@@ -763,6 +763,16 @@ class Folder:
                 return {"next": next, "iter": iter}[fn](*args)
             except Exception as ex:
                 raise Undecidable(f"{fn}: {ex}")
+        if fn in ("max", "min") and len(args) == 1 and set(kwargs) <= {"default"} and isinstance(args[0], (list, tuple, set, frozenset, IntArray, range)):
+            items = list(args[0])
+            if not items:
+                if "default" in kwargs:
+                    return kwargs["default"]
+                raise Raised("ValueError", e)                 # max() / min() of an empty sequence
+            try:
+                return (max if fn == "max" else min)(items)
+            except TypeError as ex:
+                raise Undecidable(f"{fn}: {ex}")
         if fn in ("sorted", "max", "min") and len(args) == 1 and set(kwargs) <= {"key", "reverse"} and isinstance(kwargs.get("key"), FuncVal):
             items = list(args[0].keys()) if isinstance(args[0], dict) else list(args[0])
             keyed = [(self.call_funcval(kwargs["key"], [x], {}), x) for x in items]
